@@ -14,7 +14,7 @@ def run(v, tier, seed, replay):
     if replay:
         return suvec.replay(v, replay, "asan")
     exe = suvec.build_driver("asan")
-    ops = ("add", "icomm") if tier == "quick" else ("add", "neg", "icomm", "elementwise")
+    ops = ("add", "icomm", "list", "factory") if tier == "quick" else ("add", "neg", "icomm", "elementwise", "list", "factory")
     cfg = suvec.bfs_cfg("C16_bfs", vecs=3, dims=(2, 3), exts=(1,), maxops=3 if tier == "quick" else 4, ops=ops, nblk=7, faults=True)
     r = vlib.tlc("SUVec", cfg, timeout=3000)
     vlib.tlc_ok(r, "C16 exploration")
